@@ -538,6 +538,45 @@ func NewLockedBooksMonitor(e *Env) *Monitor {
 	}
 	mon.AfterTx = func(e *Env, tx *TxPlan, pre, post *lab.Obs, resp abci.ResponseDeliverTx) {
 		preB, postB := pre.Accts[escrow].Bal, post.Accts[escrow].Bal
+		// classify what this tx tried with respect to the escrow (evidence: distinct situations)
+		leaves, nested := Flatten(tx.Spec.Msgs)
+		if len(leaves) > 0 {
+			aim := "other"
+			if strings.Contains(fmt.Sprint(leaves[0]), escrow) {
+				aim = "aimed-at-escrow"
+			}
+			if hasTopLevelWrkBeacon(tx.Spec.Msgs) {
+				payer := tx.Spec.Signers[0].Addr.String()
+				fee := tx.Spec.Fee.AmountOf(pre.EntParams.Denom)
+				lk := pre.Accts[payer].Locked
+				switch {
+				case lk.IsZero():
+					aim = "fee-tx/nothing-locked"
+				case lk.GT(fee):
+					aim = "fee-tx/locked>fee"
+				case lk.Equal(fee):
+					aim = "fee-tx/locked==fee"
+				default:
+					aim = "fee-tx/locked<fee"
+				}
+				if tx.Spec.Granter != nil {
+					aim += "/granter"
+				}
+			}
+			n := "top"
+			if nested[0] {
+				n = "nested"
+			}
+			out := "ok"
+			if resp.Code != 0 {
+				out = "fail"
+			}
+			moved := "escrow-unchanged"
+			if !preB.IsEqual(postB) {
+				moved = "escrow-moved"
+			}
+			e.C.Distinct(fmt.Sprintf("%s/%s/%s/%s/%s", msgName(leaves[0]), n, aim, out, moved))
+		}
 		if preB.IsEqual(postB) {
 			return
 		}
@@ -828,6 +867,7 @@ func NewSupplyQueriesMonitor(e *Env) *Monitor {
 					}
 				}
 				e.C.Count("page_walks", 1)
+				e.C.Distinct(fmt.Sprintf("total-supply-walk/%s/limit%s/denoms=%d/%s", mode, limitClass(uint64(limit), n), n, state))
 				if dup != "" {
 					viol("total-supply-listing", mode, "denom %s listed twice (limit %d, %s)", dup, limit, mode)
 				}
